@@ -261,7 +261,7 @@ func (e *Engine) Bin(world string, race bool) string {
 
 // ---- sampling
 
-var ops = []string{"echoJSON", "echoJSON", "echoJSONStream", "echoForm", "echoMultipart", "echoStream", "variants", "secure", "secure2", "echoWild", "echoParams", "echoParams", "echoShapes", "echoShapes", "echoSeg", "echoOpt", "echoAny"}
+var ops = []string{"echoJSON", "echoJSON", "echoJSONStream", "echoForm", "echoMultipart", "echoStream", "variants", "secure", "secure2", "echoWild", "echoParams", "echoParams", "echoShapes", "echoShapes", "echoSeg", "echoOpt", "echoAny", "echoItem", "echoItem", "echoItemRecent"}
 var invalids = []string{"pattern", "regexp2", "multipleOf", "maxLength", "enum", "tagpattern", "maxprops"}
 var readers = []string{"bytes", "bytes", "onebyte", "dataerr", "half"}
 var creds = []string{"header", "basic+query", "bearer", "header", "none", "wrong"}
@@ -278,7 +278,7 @@ var rawEscapes = []string{"%zz", "%", "%4", "a%00b", "%C0%AF", "%FF%FE", "%2", "
 // rawSegments go into the path as they are: escaped slashes, bytes net/url would have escaped, dot segments,
 // literal slashes (which change the number of segments), escaped delimiters.
 var rawSegments = []string{"a%2Fb", "a|b%2Fkeys", "é%2Fx", "%2F", "a%2F..%2Fb", "..", ".", "a%3Fb", "a%23b", "a;b", "a%20b", "x/y", "/", "%65cho", "json%2F1", "shapes%2Falpha",
-	"jsonstreamX", "jsonstream1", "json1", "formX", "paramsX", "secure2x", "variantsX", "echoX", "optX", "anyX", "1%2F2", "alpha%2F", "%2Falpha", "a{b}", "a\"b", "a^b", "a`b", "%7Bid%7D", "1/2/3", "params%2Fa%2F1%2F.b"}
+	"recentX", "recent1", "recen", "Recent", "recent%20", "jsonstreamX", "jsonstream1", "json1", "formX", "paramsX", "secure2x", "variantsX", "echoX", "optX", "anyX", "1%2F2", "alpha%2F", "%2Falpha", "a{b}", "a\"b", "a^b", "a`b", "%7Bid%7D", "1/2/3", "params%2Fa%2F1%2F.b"}
 
 // worldRoutes: the world's path templates, segment by segment ("*" = a parameter).
 var worldRoutes = []struct {
@@ -288,7 +288,7 @@ var worldRoutes = []struct {
 	{"echoJSON", "POST", []string{"echo", "json", "*"}}, {"echoJSONStream", "POST", []string{"echo", "jsonstream"}}, {"echoForm", "POST", []string{"echo", "form"}},
 	{"echoMultipart", "POST", []string{"echo", "multipart"}}, {"echoStream", "POST", []string{"echo", "stream"}}, {"echoWild", "POST", []string{"echo", "wild"}},
 	{"echoParams", "GET", []string{"echo", "params", "*", "*", "*"}}, {"echoShapes", "POST", []string{"echo", "shapes", "*"}}, {"variants", "POST", []string{"variants"}},
-	{"secure", "GET", []string{"secure"}}, {"secure2", "GET", []string{"secure2"}}, {"echoOpt", "POST", []string{"echo", "opt"}}, {"echoAny", "POST", []string{"echo", "any"}}, {"echoSeg", "GET", []string{"echo", "seg", "~^.+;.+$|v;v", "~^v\\(.+\\)$|v(v)"}},
+	{"secure", "GET", []string{"secure"}}, {"secure2", "GET", []string{"secure2"}}, {"echoOpt", "POST", []string{"echo", "opt"}}, {"echoAny", "POST", []string{"echo", "any"}}, {"echoItemRecent", "GET", []string{"echo", "item", "recent"}}, {"echoItem", "GET", []string{"echo", "item", "*"}}, {"echoSeg", "GET", []string{"echo", "seg", "~^.+;.+$|v;v", "~^v\\(.+\\)$|v(v)"}},
 }
 
 // worldRoute says which operation a raw (escaped) path designates: segments are what lies between literal
@@ -484,11 +484,13 @@ var worldParamTypes = map[string]map[string]string{
 		"query:link": "", "query:ratio": "", "query:dur": "", "query:big": "", "header:X-Flag": "",
 		"query:lvl": "int8", "header:X-Cnt": "int16", "cookie:u8": "uint8", "query:u16s": "",
 		"query:obj": "kvlist", "header:X-Obj": "kvlist"},
-	"echoJSON":   {"path:2": "int64", "header:X-Req": "", "query:q": "", "cookie:sess": ""},
-	"echoStream": {"header:X-Len": "int"},
-	"echoParams": {"path:3": "", "query:csv": "", "header:X-List": "", "cookie:ck": ""},
-	"secure":     {"query:who": "", "header:Authorization": "authz", "header:X-Api-Key": "", "query:api_key": ""},
-	"secure2":    {"header:Authorization": "authz", "header:X-Api-Key": ""},
+	"echoJSON":       {"path:2": "int64", "header:X-Req": "", "query:q": "", "cookie:sess": ""},
+	"echoStream":     {"header:X-Len": "int"},
+	"echoParams":     {"path:3": "", "query:csv": "", "header:X-List": "", "cookie:ck": ""},
+	"echoItem":       {"path:2": "same"},
+	"echoItemRecent": {"path:2": "same"},
+	"secure":         {"query:who": "", "header:Authorization": "authz", "header:X-Api-Key": "", "query:api_key": ""},
+	"secure2":        {"header:Authorization": "authz", "header:X-Api-Key": ""},
 }
 
 // Mode selects the fault distribution.
@@ -899,7 +901,7 @@ func oracleC15(r *CallRecord) []problem {
 			if raw, ok := worldPathAfter(r.Call.Op, seg, r.Call.Fault.Val); ok {
 				op, method := worldRoute(raw)
 				sent := "POST"
-				if r.Call.Op == "echoParams" || r.Call.Op == "secure" || r.Call.Op == "secure2" || r.Call.Op == "echoSeg" {
+				if r.Call.Op == "echoParams" || r.Call.Op == "secure" || r.Call.Op == "secure2" || r.Call.Op == "echoSeg" || r.Call.Op == "echoItem" || r.Call.Op == "echoItemRecent" {
 					sent = "GET"
 				}
 				switch {
@@ -921,6 +923,18 @@ func oracleC15(r *CallRecord) []problem {
 					if s.MiddlewareOps == 0 && s.Status != 400 && s.Status != 401 && s.Status != 415 && !(s.Status == 404 && op == "echoSeg") {
 						add("a request that does not reach the handler is answered 404/405/401/400/415", fmt.Sprintf("delivery %d: path rewritten to %s designates %s: status %d without a handler call", i, raw, want, s.Status))
 					}
+				}
+			}
+		case k == "mangle" && worldParamTypes[r.Call.Op][r.Call.Fault.Arg] == "same":
+			// the last segment of /echo/item/... rewritten: "recent" designates the static operation, any other
+			// non-empty text the templated one, whose handler then holds exactly that text
+			if text, ok := mangledText(r.Call.Fault); ok && s.HandlerCalls == 1 {
+				want := "name=" + text
+				if text == "recent" {
+					want = "recent"
+				}
+				if s.ServerSaw != want {
+					add("a path parameter is the text of its segment", fmt.Sprintf("delivery %d: segment rewritten to %q: handler saw %q", i, text, clip(s.ServerSaw, 80)))
 				}
 			}
 		case k == "mangle" && worldParamTypes[r.Call.Op][r.Call.Fault.Arg] == "authz":
@@ -973,11 +987,11 @@ func oracleC15(r *CallRecord) []problem {
 			if s.HandlerCalls != 0 || (s.Status != 400 && s.Status != 401) {
 				add("a lost required parameter is answered 400", fmt.Sprintf("delivery %d: status %d, handler calls %d", i, s.Status, s.HandlerCalls))
 			}
-		case k == "ctype" && r.Call.Op != "secure" && r.Call.Op != "secure2" && r.Call.Op != "echoParams" && r.Call.Op != "echoSeg" && !(r.Call.Op == "echoOpt" && !r.HasBody) && (r.Call.Fault.Arg == "text/weird" || r.Call.Fault.Arg == ";;;" || r.Call.Fault.Arg == "" || !strings.Contains(r.Call.Fault.Arg, "/")):
+		case k == "ctype" && r.Call.Op != "secure" && r.Call.Op != "secure2" && r.Call.Op != "echoParams" && r.Call.Op != "echoSeg" && r.Call.Op != "echoItem" && r.Call.Op != "echoItemRecent" && !(r.Call.Op == "echoOpt" && !r.HasBody) && (r.Call.Fault.Arg == "text/weird" || r.Call.Fault.Arg == ";;;" || r.Call.Fault.Arg == "" || !strings.Contains(r.Call.Fault.Arg, "/")):
 			if s.HandlerCalls != 0 || (s.Status != 415 && s.Status != 400) {
 				add("a wrong or missing content type is answered 415/400", fmt.Sprintf("delivery %d: status %d, handler calls %d", i, s.Status, s.HandlerCalls))
 			}
-		case k == "method" && r.Call.Fault.Arg != "POST" && r.Call.Op != "secure" && r.Call.Op != "secure2" && r.Call.Op != "echoParams" && r.Call.Op != "echoSeg":
+		case k == "method" && r.Call.Fault.Arg != "POST" && r.Call.Op != "secure" && r.Call.Op != "secure2" && r.Call.Op != "echoParams" && r.Call.Op != "echoSeg" && r.Call.Op != "echoItem" && r.Call.Op != "echoItemRecent":
 			if s.HandlerCalls != 0 || s.Status != 405 || s.Allow != "POST" {
 				add("an undefined method is answered 405 with Allow", fmt.Sprintf("delivery %d: status %d, Allow %q, handler calls %d", i, s.Status, s.Allow, s.HandlerCalls))
 			}
